@@ -159,8 +159,8 @@ pub fn scenario(u: &Unit) -> String {
                         if !prods.is_empty() {
                             // declared + added production covers the use (within two roundings), or there is a surplus
                             let pr = prods.iter().fold(k(0.0), |a, l| a + line_value(l, tt));
-                            let prem = us.le(pr).or(g.ident(us - pr).and(k(0.0).le(pr)).and(pr.le(us)).and(us.le(k(1.0e30))));
-                            ob_via(&format!("{}.id{}.covered[{}]", carrier, id, tt), "split", prem, us.le(pr).or((pr + g).approx(us, 2.0, us)));
+                            let prem = us.le_(pr).or(g.ident(us - pr).and(k(0.0).le_(pr)).and(pr.le_(us)).and(us.le_(k(1.0e30))));
+                            ob_via(&format!("{}.id{}.covered[{}]", carrier, id, tt), "split", prem, us.le_(pr).or((pr + g).approx(us, 2.0, us)));
                         }
                     }
                     None => ob(&format!("{}.id{}.nothing-added=>covered[{}]", carrier, id, tt), need.ident(k(0.0))),
@@ -168,7 +168,7 @@ pub fn scenario(u: &Unit) -> String {
             }
             // a component is added only if some step is uncovered
             if let Some(c) = added.first() {
-                let any = c.values().iter().fold(f(), |a, v| a.or(k(0.0).lt(*v)));
+                let any = c.values().iter().fold(f(), |a, v| a.or(k(0.0).lt_(*v)));
                 ob(&format!("{}.id{}.added=>some-step-uncovered", carrier, id), any);
             }
         }
@@ -206,7 +206,7 @@ pub fn scenario(u: &Unit) -> String {
         for carrier in ["EAMBIENTE", "TERMOSOLAR"] {
             if let Some(b) = crate::by_name!(ep.balance_cr, carrier) {
                 for tt in 0..n {
-                    ob(&format!("{}.exp>=0[{}]", carrier, tt), k(0.0).le(b.exp.t[tt]));
+                    ob(&format!("{}.exp>=0[{}]", carrier, tt), k(0.0).le_(b.exp.t[tt]));
                 }
             }
         }
